@@ -70,7 +70,9 @@ Definition type_is (t : option cty) (v : value) : bool :=
 
 (* ---- declarations and instances *)
 Record gclass := { g_params : list string;                (* ClassGeneric.Generic, names *)
-                   g_props : list (string * option dty) }. (* ClassStatement.Properties: name -> declared type (None = untyped) *)
+                   g_props : list (string * option dty);  (* ClassStatement.Properties: name -> declared type (None = untyped) *)
+                   g_meths : list (string * option dty);  (* methods with one parameter: name -> the parameter's declared type *)
+                   g_ctor : option (string * option dty) }. (* __construct(public <type> $p): promoted property and its type *)
 Definition ctable := list (string * gclass).
 
 Record inst := { i_cls : string;
@@ -105,10 +107,13 @@ Inductive path := PDirect | PMethod | PDyn.   (* $o->p = v at top level | $this-
 Inductive op :=
 | ONew (cls : string) (args : list cty)
 | OWrite (pa : path) (i : nat) (p : string) (v : value)
-| ORead (i : nat) (p : string).
-(* NewFailed: GetOrLoadClass throws (unknown class), or n.T[i] panics with index out of range when
-   fewer type arguments than parameters are given (the scripts run every `new` inside try, whose
-   recover turns the panic into a Throwable) *)
+| ORead (i : nat) (p : string)
+| OCall (i : nat) (m : string) (v : value)        (* $o->m(v): the T-typed parameter boundary, inside the history *)
+| ONewC (cls : string) (args : list cty) (v : value)   (* new G<args>(v) with a promoted constructor parameter *)
+| ONewRaw (cls : string).                         (* new G() without type arguments (NewExpression: the un-cloned ClassGeneric) *)
+(* NewFailed: GetOrLoadClass throws (unknown class), fewer type arguments than parameters are given (a script
+   error since fix c867350; before it a Go index-out-of-range panic that only try's recover caught), or the
+   constructor argument is rejected *)
 Inductive obs := Created | NewFailed | Accepted | Rejected | BadInst | Got (v : value).
 
 Fixpoint upd_nth {A} (i : nat) (f : A -> A) (l : list A) : list A :=
@@ -119,6 +124,29 @@ Fixpoint upd_nth {A} (i : nat) (f : A -> A) (l : list A) : list A :=
   end.
 Definition set_val (i : nat) (p : string) (v : value) (l : list inst) : list inst :=
   upd_nth i (fun x => {| i_cls := i_cls x; i_args := i_args x; i_map := i_map x; i_vals := upd p v (i_vals x) |}) l.
+
+(* ---- the other two members that can be declared with a type parameter.
+   `T $x` on a method (after fixes dcfa9d9 and 895602f): node/call_object_method.go callMethodParams
+   binds a *Parameter with Parameter.SetValue; node/function.go Parameter.SetValue lets null
+   through, replaces data.Generic{T} by GenericMap[T] of the instantiation the method runs on
+   (left as Generic, whose Is is `return true`, when T is not in the map) and asks Types.Is.
+   `public T $v` promoted in the constructor of a generic class (after fix dbde2bb):
+   node/new.go createInstanceAndCallConstructorWithStmt binds *Parameter / *PromotedParameter
+   arguments through the same Parameter.SetValue (the context's class is the instantiation), then
+   copies the bound value into the property. *)
+Definition method_param_accepts (d : option dty) (m : list (string * cty)) (v : value) : bool :=
+  match d with
+  | None => true
+  | Some d' =>
+      match v with
+      | VNull => true
+      | _ => match d' with
+             | DConc c => cty_is c v
+             | DGen n => match lookup n m with Some c => cty_is c v | None => true end
+             end
+      end
+  end.
+Definition ctor_promoted_accepts := method_param_accepts.
 
 Section WithGetProperty.
 (* the GetProperty implementation is a parameter of `step` so that the legacy (mutating) one of
@@ -156,6 +184,37 @@ Definition step (st : state) (o : op) : state * obs :=
               end
           end
       end
+  | OCall i m v =>
+      match nth_error (insts st) i with
+      | None => (st, BadInst)
+      | Some x =>
+          match lookup (i_cls x) (decls st) with
+          | None => (st, BadInst)
+          | Some g => match lookup m (g_meths g) with
+                      | None => (st, BadInst)
+                      | Some d => (st, if method_param_accepts d (i_map x) v then Accepted else Rejected)
+                      end
+          end
+      end
+  | ONewC c args v =>
+      match lookup c (decls st) with
+      | None => (st, NewFailed)
+      | Some g =>
+          match build_map (g_params g) args [], g_ctor g with
+          | Some m, Some (p, d) =>
+              if ctor_promoted_accepts d m v
+              then ({| decls := decls st;
+                       insts := (insts st ++ [{| i_cls := c; i_args := args; i_map := m; i_vals := [(p, v)] |}])%list |}, Created)
+              else (st, NewFailed)
+          | _, _ => (st, NewFailed)
+          end
+      end
+  | ONewRaw c =>
+      match lookup c (decls st) with
+      | None => (st, NewFailed)
+      | Some g => ({| decls := decls st;
+                      insts := (insts st ++ [{| i_cls := c; i_args := []; i_map := []; i_vals := [] |}])%list |}, Created)
+      end
   | ORead i p =>
       match nth_error (insts st) i with
       | None => (st, BadInst)
@@ -182,28 +241,6 @@ Definition accepts (st : state) (i : nat) (p : string) (v : value) : option bool
   | Accepted => Some true | Rejected => Some false | _ => None end.
 End WithGetProperty.
 
-(* ---- the other two members that can be declared with a type parameter.
-   `T $x` on a method (after fixes dcfa9d9 and 895602f): node/call_object_method.go callMethodParams
-   binds a *Parameter with Parameter.SetValue; node/function.go Parameter.SetValue lets null
-   through, replaces data.Generic{T} by GenericMap[T] of the instantiation the method runs on
-   (left as Generic, whose Is is `return true`, when T is not in the map) and asks Types.Is.
-   `public T $v` promoted in the constructor of a generic class (after fix dbde2bb):
-   node/new.go createInstanceAndCallConstructorWithStmt binds *Parameter / *PromotedParameter
-   arguments through the same Parameter.SetValue (the context's class is the instantiation), then
-   copies the bound value into the property. *)
-Definition method_param_accepts (d : option dty) (m : list (string * cty)) (v : value) : bool :=
-  match d with
-  | None => true
-  | Some d' =>
-      match v with
-      | VNull => true
-      | _ => match d' with
-             | DConc c => cty_is c v
-             | DGen n => match lookup n m with Some c => cty_is c v | None => true end
-             end
-      end
-  end.
-Definition ctor_promoted_accepts := method_param_accepts.
 End WithHierarchy.
 
 Definition init (tbl : ctable) : state := {| decls := tbl; insts := [] |}.
